@@ -153,6 +153,76 @@ Theorem C13_cond_exact : forall nbsimu nvar icase (nb : list row) (wgt : list (l
 Proof. exact cond_exact. Qed.
 Print Assumptions C13_cond_exact.
 
+(* --- masks: absolute sample rank vs rank among the active samples --- *)
+(* index map: the active sample of absolute rank i is element (rank_active i) of a vector compressed by the selection *)
+Theorem C13_index_map : forall (A : Type) (active : A -> bool) (d : A) (l : list A) (i : nat),
+  (i < length l)%nat -> active (nth i l d) = true ->
+  nth (rank_active active i l) (filter active l) d = nth i l d.
+Proof. exact (@nth_rank_active). Qed.
+Print Assumptions C13_index_map.
+
+(* the two numberings agree exactly when no sample before i is masked *)
+Theorem C13_rank_agree_iff : forall (A : Type) (active : A -> bool) (l : list A) (i : nat), (i <= length l)%nat ->
+  (rank_active active i l = i <-> forallb active (firstn i l) = true).
+Proof. exact (@rank_active_id). Qed.
+Print Assumptions C13_rank_agree_iff.
+
+(* a search over the compressed coordinates returns the rank among active samples of the datum found
+   by _updateData2ToTarget's search over absolute ranks *)
+Theorem C13_find_close_compressed : forall eps2 c data,
+  find_close eps2 c (filter d_active data) 0 =
+  match find_close eps2 c data 0 with
+  | Some k => Some (rank_active d_active k data)
+  | None => None
+  end.
+Proof. exact find_close_compressed0. Qed.
+Print Assumptions C13_find_close_compressed.
+
+(* _updateData2ToTarget (point output): the active target receives the value of the first ACTIVE datum
+   within eps (designated by its absolute rank), for every simulation - whatever the masks *)
+Theorem C13_copy_exact : forall nbsimu nvar icase eps2 data c (r : row) k isimu ivar v,
+  (0 <= isimu < nbsimu)%Z -> (0 <= ivar < nvar)%Z -> (0 <= icase)%Z ->
+  (nbsimu * nvar * (icase + 1) <= Z.of_nat (length r))%Z ->
+  find_close eps2 c data 0 = Some k ->
+  nth (Z.to_nat ivar) (d_z (nth k data no_datum)) None = Some v ->
+  get_item (update_point_target nbsimu nvar icase eps2 data true c r) (sim_rank isimu ivar icase nbsimu nvar) = Some v.
+Proof. exact copy_exact. Qed.
+Print Assumptions C13_copy_exact.
+
+Theorem C13_find_close_spec : forall eps2 c data k,
+  find_close eps2 c data 0 = Some k <->
+  (0 <= k < 0 + length data)%nat /\ is_close eps2 c (nth (k - 0) data no_datum) = true /\
+  (forall j, (j < k - 0)%nat -> is_close eps2 c (nth j data no_datum) = false).
+Proof. exact find_close_spec0. Qed.
+
+Theorem C13_copy_untouched : forall nbsimu nvar icase eps2 data t_active c (r : row),
+  t_active = false \/ find_close eps2 c data 0 = None ->
+  update_point_target nbsimu nvar icase eps2 data t_active c r = r.
+Proof. exact copy_untouched. Qed.
+
+(* C13_cond_exact over arbitrary masks: the neighbourhood is the list of ACTIVE samples, the coinciding datum
+   is designated by its absolute rank i and its unit weight sits at rank_active i *)
+Theorem C13_cond_exact_masked : forall nbsimu nvar icase (act : list bool) (rows : list row) (wgt : list (list Q)) (target : row)
+      (df : Z -> Z -> list Q) (i : nat) (isimu ivar : Z) (zk snc : Q),
+  let all := combine act rows in
+  let nb := map snd (filter fst all) in
+  let k := rank_active fst i all in
+  length act = length rows -> (i < length rows)%nat -> nth i act false = true ->
+  (0 <= isimu < nbsimu)%Z -> (0 <= ivar < nvar)%Z -> (0 <= icase)%Z ->
+  (forall s jv, (0 <= s < nbsimu)%Z -> (0 <= jv < nvar)%Z ->
+     map (fun r => get_item r (sim_rank s jv icase nbsimu nvar)) nb = map Some (df s jv) /\
+     length (df s jv) = length nb) ->
+  (Z.to_nat nvar * length nb <= length wgt)%nat ->
+  (forall lec, (lec < length wgt)%nat ->
+     nth (Z.to_nat ivar) (nth lec wgt []) 0 == if Nat.eqb lec (Z.to_nat ivar * length nb + k) then 1 else 0) ->
+  get_item (nth i rows []) (sim_rank isimu ivar icase nbsimu nvar) = Some (snc - zk) ->
+  get_item target (sim_rank isimu ivar icase nbsimu nvar) = Some snc ->
+  (nbsimu * nvar * (icase + 1) <= Z.of_nat (length target))%Z ->
+  exists t' v, simulate_calcul nbsimu nvar icase nb wgt target = Some t' /\
+               get_item t' (sim_rank isimu ivar icase nbsimu nvar) = Some v /\ v == zk.
+Proof. exact cond_exact_masked. Qed.
+Print Assumptions C13_cond_exact_masked.
+
 (* ================================ 4. facies <-> gaussians ================================ *)
 Theorem C13_facies_roundtrip : forall ext n f r y1 y2, 0 <= ext ->
   wf_node n (root_rect ext) = true -> facies_bounds ext n f = Some r ->
@@ -227,4 +297,16 @@ Example C13_nonvacuous_rule :
   strictly_inside (mkRect (-(10)) (-(1#2)) (1#4) 10) (-(2)) 1 = true /\
   gaussian_to_facies 10 n (-(2)) 1 = 2%Z /\ gaussian_to_facies 10 n 0 0 = 3%Z /\
   gaussian_to_facies 10 n (-(1#2)) 0 = 1%Z.
+Proof. vm_compute. repeat split; reflexivity. Qed.
+
+(* masks: first datum masked, target on the third datum.  Absolute rank 2, rank among active samples 1:
+   reading the data with the compressed rank would copy the value of datum 1 (7) instead of datum 2 (9) *)
+Example C13_nonvacuous_masks :
+  let data := [mkDatum false [0; 0] [Some 5]; mkDatum true [1; 0] [Some 7]; mkDatum true [2; 0] [Some 9]] in
+  find_close (1 # 1000) [2; 0] data 0 = Some 2%nat /\
+  find_close (1 # 1000) [2; 0] (filter d_active data) 0 = Some 1%nat /\
+  rank_active d_active 2 data = 1%nat /\
+  update_point_target 2 1 0 (1 # 1000) data true [2; 0] [Some 100; Some 200] = [Some 9; Some 9] /\
+  update_point_target 2 1 0 (1 # 1000) data true [0; 0] [Some 100; Some 200] = [Some 100; Some 200] /\
+  update_point_target 2 1 0 (1 # 1000) data false [2; 0] [Some 100; Some 200] = [Some 100; Some 200].
 Proof. vm_compute. repeat split; reflexivity. Qed.
